@@ -40,6 +40,8 @@ AXIOM_ALLOW = {
     "ProofIrrelevance.proof_irrelevance", "proof_irrelevance",
     "Eqdep.Eq_rect_eq.eq_rect_eq", "Eq_rect_eq.eq_rect_eq", "eq_rect_eq",
     "JMeq_eq", "JMeq.JMeq_eq",
+    # axioms of the standard library's real numbers (reach C19 through Flocq's binary32)
+    "ClassicalDedekindReals.sig_not_dec", "ClassicalDedekindReals.sig_forall_dec", "sig_not_dec", "sig_forall_dec",
 }
 FORBIDDEN = re.compile(
     r"\b(Admitted|admit|Axiom|Axioms|Parameter|Parameters|Conjecture|Conjectures|Admit\s+Obligations|"
